@@ -725,6 +725,7 @@ func runC19Blocks(blocks []c19Block, meta bool, cuts []int, limit int) (vs []Vio
 	type exp struct {
 		frames int // wire frames of the block
 		b      c19Block
+		over   bool // one of its frames is larger than the read limit
 	}
 	var exps []exp
 	for _, b := range blocks {
@@ -742,7 +743,13 @@ func runC19Blocks(blocks []c19Block, meta bool, cuts []int, limit int) (vs []Vio
 			fs = append(fs[:1:1], rest...)
 		}
 		wire = append(wire, FramesBytes(fs...)...)
-		exps = append(exps, exp{len(fs), b})
+		over := false
+		for _, f := range fs {
+			if limit > 0 && len(f.Payload) > limit {
+				over = true
+			}
+		}
+		exps = append(exps, exp{len(fs), b, over})
 	}
 	rd := &faultyReader{data: wire, cuts: cuts, failAt: -1}
 	fr := http2.NewFramer(io.Discard, rd)
@@ -759,7 +766,7 @@ func runC19Blocks(blocks []c19Block, meta bool, cuts []int, limit int) (vs []Vio
 	}()
 	for bi, e := range exps {
 		illegalMiddle := e.b.Middle != nil && !e.b.MidOK
-		if e.b.Big > 0 && limit > 0 {
+		if e.over {
 			// the block's CONTINUATION frame is larger than the read limit: whoever reads it - ReadFrame
 			// itself, or ReadFrame on behalf of the header block it is assembling - refuses it
 			var err error
@@ -782,7 +789,11 @@ func runC19Blocks(blocks []c19Block, meta bool, cuts []int, limit int) (vs []Vio
 			// COMPRESSION_ERROR - whatever else is wrong with the fields decoded before the cut
 			got, err := fr.ReadFrame()
 			var ce http2.ConnectionError
-			if !errors.As(err, &ce) || uint32(ce) != ErrCompression {
+			// (a block that is malformed as well may draw the connection error for that first - the
+			// reader gives up on a block with an invalid field once it runs into a further
+			// CONTINUATION frame, RFC 7540 5.4.1 lets it escalate - but it is a connection error:
+			// the decoder state is lost either way)
+			if !errors.As(err, &ce) || !(uint32(ce) == ErrCompression || (e.b.Bad != "" && uint32(ce) == ErrProtocol)) {
 				bad("truncated_block_accepted", "block %d (cut %d octets short inside its last field; %s) was not rejected with a connection error COMPRESSION_ERROR (got %T %v)", bi, e.b.Trunc, e.b.Bad, got, err)
 			} else {
 				stats["truncated_block_rejected"]++
